@@ -217,16 +217,26 @@ def run_shard(args):
     name, cases, mode = args
     jp = os.path.join(CACHE, "jobs", name + ".json")
     out = os.path.join(CACHE, "jobs", name + ".ndjson")
-    json.dump({"out": out, "scratch": os.path.join(CACHE, "scratch"), "cases": [c["job"] for c in cases]}, open(jp, "w"))
-    rc, o = run(["timeout", "-k", "2", "1500", ZV, mode, jp], timeout=1600)
     got = {}
-    if os.path.exists(out):
-        for l in open(out, errors="replace"):
-            try:
-                r = json.loads(l)
-            except ValueError:
-                break
-            got[r["id"]] = r
+    todo = list(cases)
+    for _attempt in range(30):
+        if not todo:
+            break
+        json.dump({"out": out, "scratch": os.path.join(CACHE, "scratch"), "cases": [c["job"] for c in todo]}, open(jp, "w"))
+        rc, o = run(["timeout", "-k", "2", "1500", ZV, mode, jp], timeout=1600)
+        if os.path.exists(out):
+            for l in open(out, errors="replace"):
+                try:
+                    r = json.loads(l)
+                except ValueError:
+                    break
+                got[r["id"]] = r
+        if rc == 0:
+            break
+        missing = [k for k, c in enumerate(todo) if c["id"] not in got]
+        if not missing:
+            break
+        todo = todo[missing[0] + 1:]        # the first missing case killed the harness process: it is recorded as a failure
     lines = []
     for c in cases:
         if c["id"] in got:
